@@ -2,7 +2,7 @@
 # usage: tools/runall.sh [tier] -- every claimed check on the current /repo tree, summary line per property
 tier=${1:-quick}
 cd /verif
-for p in C01 C02 C03 C04 C05 C06 C07 C08 C09 C10 C11 C12 C13 C14 C15 C16 C17 C18 C19; do
+for p in C01 C02 C03 C04 C05 C06 C07 C08 C09 C10 C11 C12 C13 C14 C15 C16 C17 C18 C19 C20; do
   s=$(date +%s); ./check $p --tier $tier > .work/run_$p.out 2>&1; rc=$?
   echo "$p tier=$tier exit=$rc wall=$(( $(date +%s) - s ))s violations=$(grep -c '^VIOLATION' .work/run_$p.out) known=$(grep -c '^KNOWN-FINDING' .work/run_$p.out) harness_errors=$(grep -c 'HARNESS-ERROR' .work/run_$p.out)"
 done
